@@ -3,6 +3,7 @@ Layer B of C01/C13/C09, part 7: the effect on the reference emulator of the byte
 every terminal description in the class `XtermLike` — i.e. `CapsFx` holds for the class.
 -/
 import Tcell.Lemmas.LayerBCmd
+import Tcell.Lemmas.Color
 namespace Tcell.LayerB
 open Tcell Tcell.Spec.Ecma48 Tcell.Spec.Ecma48.Term
 open Tcell.Render (tp parm ints)
@@ -166,5 +167,133 @@ theorem xl_attrOff_effect {rw} {rc : RenderCfg} (hx : XtermLike rc.ti = true) {t
     simp only [attrOffForms, List.mem_cons, List.not_mem_nil, or_false] at hm
     rcases hm with rfl | rfl | rfl | rfl | rfl | rfl | rfl <;> decide
   rw [hc]; exact attrOff_effect g _ hm
+
+/-! ## the style block for styles without colours and underline (milestones a + c) -/
+
+theorem isRGB_of_invalid (c : Nat) (h : Color.valid c = false) : Color.isRGB c = false := by
+  rw [Color.isRGB_eq]; rw [Color.valid_eq] at h; simp [h]
+
+/-- colours that make `sendFgBg` write nothing: not valid (e.g. `ColorDefault`) and not `ColorReset` -/
+def NoColor (c : Nat) : Prop := Color.valid c = false ∧ c ≠ colorReset
+
+theorem sendFgBg_none (rc : RenderCfg) (hcol : rc.ti.colors ≠ 0) (fg bg attrs : Nat) (hf : NoColor fg) (hb : NoColor bg) :
+    Render.sendFgBg rc fg bg attrs = ([], attrs) := by
+  have e1 := isRGB_of_invalid fg hf.1
+  have e2 := isRGB_of_invalid bg hb.1
+  simp [Render.sendFgBg, hcol, hf.1, hb.1, hf.2, hb.2, e1, e2]
+
+theorem opt_piece {rw} {rc : RenderCfg} {t : Term} (g : Good rw t) (b : Bool) (s std : Bytes) (ho : s = [] ∨ s = std)
+    (hstd : ∀ x ∈ std, x ≠ 36) (f : Pen → Pen) (heff : ∀ {t : Term}, Good rw t → t.feed std = withPen t (f t.pen)) :
+    t.feed (if b then tp rc s else []) = withPen t (if (b && !s.isEmpty) = true then f t.pen else t.pen) := by
+  cases b
+  · simp [withPen]
+  · rcases ho with rfl | rfl
+    · simp [withPen]
+    · simp only [if_true, tp_clean rc _ hstd, Bool.true_and]
+      cases hs : s.isEmpty
+      · simp [heff g]
+      · have : s = [] := by simpa using hs
+        subst this; simp [withPen]
+
+theorem opt_of {s std : Bytes} (h : optForm s std = true) : s = [] ∨ s = std := by
+  simpa [optForm] using h
+
+theorem ite_bold (c : Bool) (p : Pen) : (if c = true then ({ p with bold := true } : Pen) else p) = { p with bold := p.bold || c } := by
+  cases c <;> cases p <;> simp
+theorem ite_reverse (c : Bool) (p : Pen) : (if c = true then ({ p with reverse := true } : Pen) else p) = { p with reverse := p.reverse || c } := by
+  cases c <;> cases p <;> simp
+theorem ite_blink (c : Bool) (p : Pen) : (if c = true then ({ p with blink := true } : Pen) else p) = { p with blink := p.blink || c } := by
+  cases c <;> cases p <;> simp
+theorem ite_dim (c : Bool) (p : Pen) : (if c = true then ({ p with dim := true } : Pen) else p) = { p with dim := p.dim || c } := by
+  cases c <;> cases p <;> simp
+theorem ite_italic (c : Bool) (p : Pen) : (if c = true then ({ p with italic := true } : Pen) else p) = { p with italic := p.italic || c } := by
+  cases c <;> cases p <;> simp
+theorem ite_strike (c : Bool) (p : Pen) : (if c = true then ({ p with strike := true } : Pen) else p) = { p with strike := p.strike || c } := by
+  cases c <;> cases p <;> simp
+
+/-- facts of the class used below -/
+structure XL (rc : RenderCfg) : Prop where
+  colors : rc.ti.colors ≠ 0
+  bold : rc.ti.bold = sgr1 1
+  reverse : rc.ti.reverse = sgr1 7
+  blink : rc.ti.blink = [] ∨ rc.ti.blink = sgr1 5
+  dim : rc.ti.dim = [] ∨ rc.ti.dim = sgr1 2
+  italic : rc.ti.italic = [] ∨ rc.ti.italic = sgr1 3
+  strike : rc.ti.strikeThrough = [] ∨ rc.ti.strikeThrough = sgr1 9
+  enterUrl : rc.d.enterUrl = urlOpen
+  exitUrl : rc.d.exitUrl = urlClose
+
+theorem xl_facts {rc : RenderCfg} (hx : XtermLike rc.ti = true) (hd : rc.d = derive rc.ti) : XL rc := by
+  have h1 := xl_tiOk hx
+  have h2 : dOk rc.d = true := by rw [hd]; simp only [XtermLike, Bool.and_eq_true] at hx; exact hx.2
+  simp only [tiOk, Bool.and_eq_true, beq_iff_eq, and_assoc] at h1
+  obtain ⟨_, _, _, _, _, _, a7, a8, a9, a10, a11, a12, a13, _⟩ := h1
+  simp only [dOk, Bool.and_eq_true, beq_iff_eq, and_assoc] at h2
+  obtain ⟨b1, b2, _⟩ := h2
+  refine ⟨?_, a7, a8, opt_of a9, opt_of a10, opt_of a11, opt_of a12, b1, b2⟩
+  intro h0
+  simp only [Bool.or_eq_true, Bool.and_eq_true, beq_iff_eq, decide_eq_true_eq] at a13
+  rcases a13 with h | h
+  · simp [h0] at h
+  · simp [h0] at h
+
+/-- **the whole style block of drawCell**, for every `XtermLike` terminal and every style without colours, underline
+and hyperlink (any combination of bold / blink / reverse / dim / italic / strike-through): the emulator's pen becomes
+exactly `penOf rc s`, pen and hyperlink state are known afterwards, nothing else changes.  (The part of `CapsFx.pen` that
+is proved; colours and underline are covered by the per-string lemmas above but their assembly is not.) -/
+theorem xl_setPen_attrs_effect {rw} {rc : RenderCfg} (hx : XtermLike rc.ti = true) (hd : rc.d = derive rc.ti) {t : Term}
+    (g : Good rw t) (s : Style) (hf : NoColor s.fg) (hb : NoColor s.bg) (hu : s.ulStyle = 0) (hurl : s.url = "") :
+    t.feed (Render.render rc (.setPen s)) = { t with pen := penOf rc s, penKnown := true, linkKnown := true } := by
+  have X := xl_facts hx hd
+  have hne : (!rc.d.enterUrl.isEmpty) = true := by rw [X.enterUrl]; decide
+  have e : Render.render rc (.setPen s) =
+      tp rc rc.ti.attrOff ++ (if bit s.attrs Render.attrBold then tp rc rc.ti.bold else []) ++
+      (if bit s.attrs Render.attrReverse then tp rc rc.ti.reverse else []) ++
+      (if bit s.attrs Render.attrBlink then tp rc rc.ti.blink else []) ++
+      (if bit s.attrs Render.attrDim then tp rc rc.ti.dim else []) ++
+      (if bit s.attrs Render.attrItalic then tp rc rc.ti.italic else []) ++
+      (if bit s.attrs Render.attrStrike then tp rc rc.ti.strikeThrough else []) ++ urlClose := by
+    simp only [Render.render, Render.setPen, sendFgBg_none rc X.colors _ _ _ hf hb, Render.underline, hu, hne, hurl, X.exitUrl,
+      bit, if_true, List.append_nil, ne_eq, not_true_eq_false, if_false, tp_clean rc urlClose (by decide), decide_eq_true_eq]
+  rw [e]
+  simp only [← feed_append]
+  rw [xl_attrOff_effect hx g]
+  have g0 := good_reset g
+  rw [opt_piece g0 _ _ (sgr1 1) (Or.inr X.bold) (by decide) (fun p => { p with bold := true }) bold_effect]
+  generalize hp1 : (if (bit s.attrs Render.attrBold && !rc.ti.bold.isEmpty) = true then
+    ({ (reset t).pen with bold := true } : Pen) else (reset t).pen) = p1
+  have g1 := good_withPen g0 p1
+  rw [opt_piece g1 _ _ (sgr1 7) (Or.inr X.reverse) (by decide) (fun p => { p with reverse := true }) reverse_effect]
+  generalize hp2 : (if (bit s.attrs Render.attrReverse && !rc.ti.reverse.isEmpty) = true then
+    ({ (withPen (reset t) p1).pen with reverse := true } : Pen) else (withPen (reset t) p1).pen) = p2
+  have g2 := good_withPen g1 p2
+  rw [opt_piece g2 _ _ (sgr1 5) X.blink (by decide) (fun p => { p with blink := true }) blink_effect]
+  generalize hp3 : (if (bit s.attrs Render.attrBlink && !rc.ti.blink.isEmpty) = true then
+    ({ (withPen (withPen (reset t) p1) p2).pen with blink := true } : Pen) else (withPen (withPen (reset t) p1) p2).pen) = p3
+  have g3 := good_withPen g2 p3
+  rw [opt_piece g3 _ _ (sgr1 2) X.dim (by decide) (fun p => { p with dim := true }) dim_effect]
+  generalize hp4 : (if (bit s.attrs Render.attrDim && !rc.ti.dim.isEmpty) = true then
+    ({ (withPen (withPen (withPen (reset t) p1) p2) p3).pen with dim := true } : Pen)
+    else (withPen (withPen (withPen (reset t) p1) p2) p3).pen) = p4
+  have g4 := good_withPen g3 p4
+  rw [opt_piece g4 _ _ (sgr1 3) X.italic (by decide) (fun p => { p with italic := true }) italic_effect]
+  generalize hp5 : (if (bit s.attrs Render.attrItalic && !rc.ti.italic.isEmpty) = true then
+    ({ (withPen (withPen (withPen (withPen (reset t) p1) p2) p3) p4).pen with italic := true } : Pen)
+    else (withPen (withPen (withPen (withPen (reset t) p1) p2) p3) p4).pen) = p5
+  have g5 := good_withPen g4 p5
+  rw [opt_piece g5 _ _ (sgr1 9) X.strike (by decide) (fun p => { p with strike := true }) strike_effect]
+  generalize hp6 : (if (bit s.attrs Render.attrStrike && !rc.ti.strikeThrough.isEmpty) = true then
+    ({ (withPen (withPen (withPen (withPen (withPen (reset t) p1) p2) p3) p4) p5).pen with strike := true } : Pen)
+    else (withPen (withPen (withPen (withPen (withPen (reset t) p1) p2) p3) p4) p5).pen) = p6
+  have g6 := good_withPen g5 p6
+  rw [urlClose_effect g6]
+  subst hp6; subst hp5; subst hp4; subst hp3; subst hp2; subst hp1
+  -- the pen
+  have c1 : colSel rc s.fg = .default := by simp [colSel, hf.1, isRGB_of_invalid _ hf.1]
+  have c2 : colSel rc s.bg = .default := by simp [colSel, hb.1, isRGB_of_invalid _ hb.1]
+  have hb1 : rc.ti.bold.isEmpty = false := by rw [X.bold]; decide
+  have hb7 : rc.ti.reverse.isEmpty = false := by rw [X.reverse]; decide
+  simp only [ite_bold, ite_reverse, ite_blink, ite_dim, ite_italic, ite_strike]
+  simp [withPen, reset, penOf, c1, c2, hu, ulStyleOf, hurl, hb1, hb7]
 
 end Tcell.LayerB
